@@ -5,7 +5,7 @@
 (* line - the cases the real helpers are then run on, with the model's expectation.        *)
 EXTENDS IoHelpers, TLC, Json, SequencesExt
 
-CONSTANTS Family,   \* "rte" | "rte2" | "rex" | "rts" | "rtsbig" | "utf8" | "wa" | "wf"
+CONSTANTS Family,   \* "rte" | "rte2" | "rex" | "rts" | "rtsbig" | "utf8" | "wa" | "wf" | "all"
           L,        \* maximal script length (including the terminal item)
           GrowExtra \* further capacities reserve(32) may yield: len + 32 + x for x in GrowExtra
 
@@ -71,12 +71,12 @@ BigCases == UNION {{Case("read_to_string", s, d, ic[1], ic[2], 0, <<>>) :
                         s \in {x \in BigScripts : Total(x) <= Len(d)}, ic \in BigInits} : d \in BigStrs}
 
 \* IsUtf8 against the real core::str::from_utf8 (which the guard of append_to_string calls): every
-\* byte string up to length L over the bytes at which the UTF-8 grammar changes its mind, plus
+\* byte string up to length L - 1 over the bytes at which the UTF-8 grammar changes its mind, plus
 \* 4-byte forms; delivered in one chunk, so the only thing that varies is the validity verdict
 Edge == {0, 127, 128, 143, 144, 159, 160, 191, 192, 193, 194, 223, 224, 225, 236, 237, 238, 239, 240, 241, 243, 244, 245, 255}
 FourByte == {<<a, b, c, d>> : a \in {240, 241, 243, 244, 245}, b \in {127, 128, 143, 144, 191, 192},
                               c \in {127, 128, 191, 192}, d \in {127, 128, 191, 192}}
-Utf8Strings == UNION {[1..k -> Edge] : k \in 1..L} \cup FourByte
+Utf8Strings == UNION {[1..k -> Edge] : k \in 1..(L - 1)} \cup FourByte
 Utf8Cases == {Case("read_to_string", <<C(Len(d)), EOF_>>, d, <<>>, 0, 0, <<>>) : d \in Utf8Strings}
 
 WItems == {A(1), A(2), A(32), A(100), ZERO, EINTR, ERR(5)}
@@ -93,12 +93,15 @@ Cases == CASE Family = "rte" -> RteCases
            [] Family = "utf8" -> Utf8Cases
            [] Family = "wa" -> WaCases
            [] Family = "wf" -> WfCases
+           \* all families in one run (one JVM: the quick tier)
+           [] Family = "all" -> RteCases \cup Rte2Cases \cup RexCases \cup RtsCases \cup BigCases
+                                \cup Utf8Cases \cup WaCases \cup WfCases
 
 MCInit == \E c \in Cases : InitFor(c)
 
 \* one line per complete behaviour; byte contents are left out where the driver regenerates
 \* them with IdData / IdInit
-IdFamily == Family \in {"rte", "rte2", "rex", "wa", "wf"}
+IdFamily == case.op # "read_to_string"
 Emit ==
     pc = "done" =>
         PrintT(<<"B", ToJson([op |-> case.op, script |-> case.script, cap0 |-> case.cap0, n |-> case.n,
